@@ -195,6 +195,36 @@ P = {
    note=TB + " attribute-order irrelevance of get_datatype is sampled, not proved; text content of cells is C19's model; zip and quick-xml are outside.",
    technique="Coq proof (two-pass invariant induction over rows/cells; reduction to a bounding-box spec) + extracted-model correspondence on real .ods files",
    design_ref="5/C04"),
+ "C13": dict(claimed=True,
+   text="Coq theorems over Cfb.v: C13_chain_follow (for any FAT, any duplicate-free chain ending in ENDOFCHAIN, any sector contents "
+        "and any state of the lazy sector cache, get_chain with fuel length fat + 1 returns the sectors in chain order truncated to "
+        "the declared length: any permutation / fragmentation), C13_chain_cycle_out_of_fuel (a repetition never terminates: OutOfFuel "
+        "for every fuel), C13_mini_compose / _mini_sector_in_root_chain, byte-level round trips of the FAT load, the directory chain "
+        "(v3 and v4 lengths), the mini-FAT load and the mini stream, and C13_layout_independent_partial: for every container (512 or "
+        "4096-byte sectors), every valid layout and every stream, get_stream on the Cfb value built from the tables cfb_write lays "
+        "down returns exactly the stream's bytes (+ has_directory, same_streams_same_read). PARTIAL: the byte-level header / DIFAT / "
+        "directory-entry parsing steps are not yet composed into the full C13_layout_independent (notes/C13.md lists the four missing "
+        "lemmas); those steps are covered by vm_compute examples through the bytes and by the correspondence run. Known class "
+        "bom_name with refutation lemma. Tie: hook Cfb::new / get_stream / has_directory on extracted cfb_write outputs (both sector "
+        "sizes, shuffled chains, boundary sizes, 40-entry directories, free sectors, > 109 FAT sectors), malformed containers, and "
+        "every xls fixture re-laid-out under random layouts through Xls::new.",
+   note=TB + " The 7.2 MB DIFAT case is compared code vs spec only (the extracted model is too slow on it).",
+   technique="Coq proof (chain induction with cache invariant, sector arithmetic; partial composition) + extracted-encoder correspondence",
+   design_ref="5/C13"),
+ "C16": dict(claimed=True,
+   text="Coq theorems over Meta.v: xlsx and ods complete — C16_report_xlsx / C16_report_ods: for every logical workbook (ordered sheets "
+        "with names incl. XML-special and non-ASCII characters, visibility, kind; ordered defined names; date flag) and every legal "
+        "encoding (attribute order, prefixes, ignorable elements, relationship ids in any order, target spellings) the parsed record "
+        "equals the logical workbook, with projections C16_sheets_in_order_*, C16_defined_names_in_order_*, "
+        "C16_date_flag_reaches_cells_xlsx, C16_rels_roundtrip_xlsx; C16_tables_injective (visibility and kind tables). PARTIAL: xls — "
+        "C16_sheets_in_order_xls_partial (sheets in order, exact names in 8- or 16-bit storage, visibility, kind, date flag, junk "
+        "records anywhere) for workbooks without defined names; C16_date_flag_threaded_xls/_xlsb (every DateTime cell carries the "
+        "parsed flag); xlsb sheets/names and xls defined names are modelled and tied by correspondence only, not proved. Four known "
+        "classes with vm_compute refutations. Tie: generated workbooks of the four formats through sheet_names, sheets_metadata, "
+        "defined_names, worksheet_range.",
+   note=TB + " xls/xlsb defined-name formulas go through C14's Ptg decoder; zip and quick-xml are outside the model.",
+   technique="Coq proof (induction over sheet / name / event lists per format; injective tables) + extracted-model correspondence on generated workbooks",
+   design_ref="5/C16"),
 }
 REASON_TODO = "not claimed yet: model and theorems for this property are still being built (see DESIGN.md section 9)"
 
